@@ -69,7 +69,7 @@ def wStr : WKind → String
 def obsStr : Obs → String
   | .write k => s!"(w {wStr k})" | .tclose => "tclose" | .cbEnter => "cbEnter" | .cbExit => "cbExit"
   | .msgEnter n => s!"(msgEnter {n})" | .msgExit n => s!"(msgExit {n})" | .msgAbandon n => s!"(msgAbandon {n})"
-  | .msgRaise n => s!"(msgRaise {n})" | .ret u r => s!"(ret {u} {resStr r})"
+  | .msgRaise n => s!"(msgRaise {n})" | .ret u r => s!"(ret {u} {resStr r})" | .loginReply n => s!"(loginReply {n})"
 
 /-- run the task recorded in `imm` again, as the real code continues within the same step -/
 def settle (cfg : Cfg) : Nat → St → St
